@@ -50,10 +50,20 @@ func LoadConfig(dir, text string) (config.Config, error) {
 	return cfg, err
 }
 
+// ApplyFlags does what cmd/pint/main.go actionSetup does with --disabled / --enabled / --offline, through the same
+// config methods; an --enabled value that names no check is an error there and a panic here (callers recover).
 func ApplyFlags(cfg *config.Config, o Options) {
 	cfg.SetDisabledChecks(o.Disabled)
 	if len(o.Enabled) > 0 {
-		cfg.Checks.Enabled = o.Enabled
+		// through the method when the tree has it (a tree without it assigns the raw values, as main.go then does; the
+		// binary probes in C08 observe main.go itself)
+		if se, ok := any(cfg).(interface{ SetEnabledChecks([]string) error }); ok {
+			if err := se.SetEnabledChecks(o.Enabled); err != nil {
+				panic("invalid --enabled value: " + err.Error())
+			}
+		} else {
+			cfg.Checks.Enabled = o.Enabled
+		}
 	}
 	if o.Offline {
 		cfg.DisableOnlineChecks()
